@@ -180,6 +180,181 @@ def replay_a(o):
 
 
 # ---------------------------------------------------------------------------------------------
+# C. float2mpf, exponent split, modular (mpmath replaced by its contract)
+# ---------------------------------------------------------------------------------------------
+class MpfOfFloat:
+    """contract of ctx.ldexp(m, n) for a float m: the multiprecision number m * 2**n EXACTLY (no rounding: mpmath's ldexp
+    only changes the exponent).  int() of it is that value when it is an integer - here: m = 0 or 0.5 <= |m| < 1 with a
+    p-bit significand and n >= p."""
+
+    def __init__(self, m, n):
+        self.m, self.n = m, n
+
+    def __symint__(self):
+        e = symrun.eng()
+        eb, sb = self.m.fmt
+        W = e.W
+        bits = symrun.fp_bits(self.m.e)
+        nb = eb + sb
+        sign = z3.Extract(nb - 1, nb - 1, bits)
+        ef = z3.Extract(nb - 2, sb - 1, bits)
+        fr = z3.Extract(sb - 2, 0, bits)
+        bias = (1 << (eb - 1)) - 1
+        if not isinstance(self.n, int) or self.n < sb:
+            raise symrun.Unsupported("ldexp(m, n) with n below the precision: int() would truncate")
+        zero = z3.And(ef == 0, fr == 0)
+        e.side.append(("ldexp-mantissa-in-[0.5,1)-or-zero", z3.Or(zero, ef == bias - 1)))
+        mag = (z3.ZeroExt(W - (sb - 1), fr) + z3.BitVecVal(1 << (sb - 1), W)) << (self.n - sb)
+        val = z3.simplify(z3.If(zero, z3.BitVecVal(0, W), z3.If(sign == 1, -mag, mag)))
+        return val.as_signed_long() if z3.is_bv_value(val) else SymInt(val)
+
+    def __eq__(self, o):
+        mine = self.__symint__()
+        if isinstance(mine, int) and isinstance(o, int):
+            return mine == o
+        a = mine if isinstance(mine, SymInt) else SymInt(z3.BitVecVal(mine, symrun.eng().W))
+        return a == o
+
+    __hash__ = None
+
+
+class MpfHolder:
+    def __init__(self, man, exp, prec, rnd):
+        self.man, self.exp, self.prec, self.rnd = man, exp, prec, rnd
+
+
+class FakeMpCtx:
+    def __init__(self, prec):
+        self._prec_rounding = [prec, "n"]
+
+    def ldexp(self, m, n):
+        return MpfOfFloat(m, n)
+
+    def make_mpf(self, t):
+        return t
+
+    def isfinite(self, r):
+        return isinstance(r, MpfHolder)
+
+
+class _LibMp:
+    finf, fninf, fnan = "finf", "fninf", "fnan"
+
+    @staticmethod
+    def from_man_exp(man, exp, prec=None, rnd=None):
+        return MpfHolder(man, exp, prec, rnd)
+
+
+class MpmathShadowC:
+    libmp = _LibMp
+
+
+def build_exponent_mpf(arg):
+    tn, E = arg
+    t = getattr(numpy, tn)
+    import functional_algorithms.utils as U
+
+    g = reglobal(U, extra=dict(mpmath=MpmathShadowC))
+    f = g["float2mpf"]
+    eb, sb = FMT[t]
+    W = WIDTH[t]
+    sgn = z3.BitVec("s", 1)
+    F = z3.BitVec("F", sb - 1)
+    x = z3.fpBVToFP(z3.Concat(sgn, z3.BitVecVal(E, eb), F), z3.FPSort(eb, sb))
+    out = []
+    base = "C13/utils.float2mpf/%s/E=%d" % (tn, E)
+    try:
+        paths = explore(lambda e: f(FakeMpCtx(sb + 10), SymFP(x, t)), int_width=W)
+    except Exception:
+        return [dict(id=base + "/engine", error=traceback.format_exc()[-800:])]
+    bias = (1 << (eb - 1)) - 1
+    q = (1 - bias - (sb - 1)) if E == 0 else (E - bias - (sb - 1))
+    W2 = 2 * W
+    Fz = z3.ZeroExt(W2 - (sb - 1), F)
+    sig = Fz if E == 0 else Fz + z3.BitVecVal(1 << (sb - 1), W2)
+    sig = z3.If(sgn == 1, -sig, sig)
+    for p in paths:
+        pid = "%s/path=%s" % (base, p.sig())
+        s = z3.Solver()
+        for c in p.pc:
+            s.add(c)
+        r = p.result
+        if p.exc is not None or not isinstance(r, MpfHolder):
+            s.add(F == F, sgn == sgn)
+            out.append(dict(id=pid + "/returns-mpf", smt2=s.to_smt2().replace("(check-sat)", ""), text="no finite input makes float2mpf raise / return something else (here: %r)" % (p.exc or type(r).__name__,)))
+            continue
+        man = _bv(r.man, W2)
+        # value = man * 2**exp must be sig * 2**q; the exponent may be symbolic for subnormal inputs: compare after shifting
+        # both sides to the smaller exponent (q is the lower bound of every admissible exponent: man carries at most sb bits
+        # above it)
+        if isinstance(r.exp, int):
+            d = r.exp - q
+            goal = (man << d) == sig if d >= 0 else man == (sig << (-d))
+            if abs(d) >= W:
+                goal = z3.BoolVal(False)
+        else:
+            ex = z3.SignExt(W2 - r.exp.e.size(), r.exp.e)
+            d = ex - z3.BitVecVal(q, W2)
+            goal = z3.Or(z3.And(man == 0, sig == 0), z3.And(d >= 0, d < sb + 2, (man << d) == sig), z3.And(d < 0, -d < sb + 2, man == (sig << (-d))))  # zero: any exponent
+        # from_man_exp(man, exp, prec, rnd) is exact only when man fits prec bits: the precision handed over is part of the goal
+        fits = z3.BoolVal(isinstance(r.prec, int) and r.prec >= sb) if True else None
+        s.add(z3.Not(z3.And(goal, fits)))
+        out.append(dict(id=pid + "/exact-value", smt2=s.to_smt2().replace("(check-sat)", ""), text="man * 2**exp == +-significand * 2**%d, and the precision passed to from_man_exp (%r) holds the %d-bit mantissa" % (q, r.prec, sb)))
+        if p.side:
+            s = z3.Solver()
+            for c in p.pc:
+                s.add(c)
+            s.add(z3.Not(z3.And([cond for _, cond in p.side])))
+            out.append(dict(id="%s/int-model-adequate" % pid, smt2=s.to_smt2().replace("(check-sat)", ""), text="integer model and callee preconditions hold on this path (%d side conditions)" % len(p.side)))
+    return out
+
+
+def part_c(rep, tier, only=None):
+    fn = ("utils.float2mpf",)
+    rep.under_contract(fn[0], "the mpf (man, exp) handed to mpmath has exactly the value of the float, for every finite float (exponent split; mpmath calls replaced by their contracts)")
+    args = []
+    for t in TYPES:
+        eb, sb = FMT[t]
+        for E in range(0, (1 << eb) - 1):
+            args.append((t.__name__, E))
+    if only:
+        args = [a for a in args if only in "C13/utils.float2mpf/%s/E=%d/" % a]
+    ctx = mp.get_context("fork")
+    with ctx.Pool(core.NPROC) as pool:
+        for lst in pool.imap_unordered(build_exponent_mpf, args, chunksize=8):
+            for d in lst:
+                tn, E = d["id"].split("/")[2], int(d["id"].split("/")[3][2:])
+                meta = dict(t=tn, E=E, part="C")
+                if "error" in d:
+                    rep.add(core.decided(d["id"], PROP, core.ERROR, functions=fn, text=d["error"]))
+                else:
+                    rep.add(core.smt(d["id"], PROP, d["smt2"], functions=fn, text=d["text"], budget_s=120, meta=meta))
+
+
+def replay_c(o):
+    import mpmath
+
+    import functional_algorithms.utils as U
+
+    meta, m = o.meta or {}, o.model or {}
+    if meta.get("part") != "C" or o.model is None:
+        return dict(replayed=False, witness_class=None)
+    t = getattr(numpy, meta["t"])
+    eb, sb = FMT[t]
+    bits = (int(m.get("s", {}).get("value", 0)) << (eb + sb - 1)) | (meta["E"] << (sb - 1)) | int(m.get("F", {}).get("value", 0))
+    x = UINT[t](bits).view(t)
+    info = dict(x=repr(x), bits=hex(bits), witness_class="float2mpf %s" % meta["t"])
+    try:
+        with mpmath.workprec(sb + 10):
+            got = mpf_value(U.float2mpf(mpmath.mp, x))
+        want = exact_value(bits, t)
+        info.update(got=str(got), want=str(want), replayed=bool(got != want))
+    except Exception as e:
+        info.update(raised=repr(e), replayed=True)
+    return info
+
+
+# ---------------------------------------------------------------------------------------------
 # B. bounded stand-in
 # ---------------------------------------------------------------------------------------------
 def sample_bits(t, tier, rnd):
@@ -450,8 +625,11 @@ def build(tier, only=None):
     rep.extraction_drops.append("float2fraction: the code object is rebuilt over a shadow namespace (isinstance, int, type, fractions.Fraction -> pair holder); list / float / mpf branches are not taken")
     if only is None or "float2fraction/" in only or "canary" in only:
         part_a(rep, tier, only)
+    if only is None or "float2mpf/" in only:
+        part_c(rep, tier, only)
     if only is None or "bounded" in only:
         part_b(rep, tier)
+    rep.replayers["C13/utils.float2mpf"] = replay_c
     rep.replayers["C13/utils.float2fraction"] = replay_a
     rep.replayers["C13/bounded"] = replay_b
     return rep
@@ -469,6 +647,8 @@ def replay(path):
     o = core.Obligation(id=d["obligation"], prop=PROP, model=d.get("model"), meta=d.get("meta") or {})
     if (o.meta or {}).get("part") == "A":
         info = replay_a(o)
+    elif (o.meta or {}).get("part") == "C":
+        info = replay_c(o)
     else:
         # re-run the named inputs natively
         fails = (o.meta or {}).get("fails") or []
